@@ -178,6 +178,16 @@ class Resolver:
                             elt=ast.Subscript(value=ast.Name(id="e_", ctx=ast.Load()), slice=ast.Constant(value=k), ctx=ast.Load()),
                             generators=[ast.comprehension(target=ast.Name(id="e_", ctx=ast.Store()), iter=value.args[0].value, ifs=[], is_async=0)])
                         self._bind(e.id, "assign", stmt, ast.fix_missing_locations(ast.copy_location(proj, value)))
+                    elif isinstance(value, ast.Call) and isinstance(value.func, ast.Name) and value.func.id == "map" and len(value.args) == 2 \
+                            and not value.keywords and isinstance(value.args[0], (ast.Name, ast.Attribute)) and isinstance(value.args[1], ast.Call) \
+                            and isinstance(value.args[1].func, ast.Name) and value.args[1].func.id == "zip" and len(value.args[1].args) == 1 \
+                            and isinstance(value.args[1].args[0], ast.Starred):
+                        # a, b = map(f, zip(*rows)): f of the k-th projection
+                        proj = ast.ListComp(
+                            elt=ast.Subscript(value=ast.Name(id="e_", ctx=ast.Load()), slice=ast.Constant(value=k), ctx=ast.Load()),
+                            generators=[ast.comprehension(target=ast.Name(id="e_", ctx=ast.Store()), iter=value.args[1].args[0].value, ifs=[], is_async=0)])
+                        call = ast.Call(func=value.args[0], args=[proj], keywords=[])
+                        self._bind(e.id, "assign", stmt, ast.fix_missing_locations(ast.copy_location(call, value)))
                     else:
                         self._bind(e.id, "elem", stmt, value, k)
                 elif isinstance(e, ast.Starred):
